@@ -387,7 +387,7 @@ struct Harness<'a> {
     tabs: [Vec<Entry<u8>>; 3],
 }
 
-type Key = (usize, usize, usize, bool);
+type Key = (usize, usize, usize, bool, usize, usize);
 
 impl<'a> Harness<'a> {
     /// Replay `hist` on a fresh reader + model. Ok((key, model position, identity holds)).
@@ -431,7 +431,8 @@ impl<'a> Harness<'a> {
                 ));
             }
         }
-        Ok(((pulled, bl, br, grown), m.pos, identity))
+        let (cap, front) = rd.verif_layout();
+        Ok(((pulled, bl, br, grown, cap, front), m.pos, identity))
     }
 
     fn apply<R: Read>(&self, rd: &mut H263Reader<R>, m: &mut Model, op: &Op, shared: &Rc<RefCell<Vec<u8>>>, grown: &mut bool) -> Result<(), String> {
@@ -691,7 +692,7 @@ pub fn run(tier: Tier) -> Report {
     one_step_sweep(&rep, tier);
 
     rep.set_rule(
-        "BFS to fixpoint over the reader's exact state (bytes pulled, buffer length, bit offset, grown?) for every source; every operation of the alphabet applied in every state, every step compared with a bit-vector model, a drain probe at every new state; \
+        "BFS to fixpoint over the reader's exact state (bytes pulled, buffer length, bit offset, grown?, and the ring buffer's physical layout: capacity and first-slice length) for every source; every operation of the alphabet applied in every state, every step compared with a bit-vector model, a drain probe at every new state; \
          plus a one-step sweep of all two-byte sources x offsets x widths x types; non-trivial transition = transaction/union/look-ahead/grow, or any step ending off a byte boundary",
     );
     rep.sample(json!({"source": "00 80 a5", "history": ["read_bits::<u32>(1)", "commit", "with_transaction{read 17 bits; fail}", "read_u8"]}));
